@@ -114,20 +114,10 @@ def r91(ctx, prog, label=''):
 
 
 def r92(ctx, prog, label=''):
-    sites = []
-    for f in prog.fns:
-        for b, t in f.calls():
-            if t['callee'].get('local') and t['callee']['name'] == 'builtin_function':
-                sites.append((short(f.path), t['span']))
-        # function-pointer uses count as well
-        for blk in f.blocks:
-            for st in blk['stmts']:
-                if st['k'] == 'assign' and st['rv']['k'] in ('use', 'cast'):
-                    c = op_const(st['rv']['op'])
-                    if c and c.get('k') == 'fn' and c['def'].endswith('builtin_function'):
-                        sites.append((short(f.path) + ' (fn item taken)', st.get('span')))
+    from rules.common import terminal_call_sites
+    sites = terminal_call_sites(prog, lambda c: c.get('local') and c.get('name') == 'builtin_function', roots={'operator::Operator::eval'})
     ctx.check(len(sites) == 1 and sites[0][0] == 'operator::Operator::eval', 'R9.2', label + 'builtin_function', 'who-may-call',
-              'builtin_function is called from exactly one site, the FunctionIdentifier arm of Operator::eval (found %s)' % sites)
+              'builtin_function is reached from exactly one site, the FunctionIdentifier arm of Operator::eval (directly or through a private helper called only there; found %s)' % sites)
 
 
 def ctx_method(prog, ctxname, method, trait=CONTEXT):
